@@ -1,6 +1,7 @@
 import BfeVerif.Common.Proto
 import BfeVerif.C32.Model
 import BfeVerif.C32.Chunked
+import BfeVerif.C32.Meta
 /-!
   C32 driver.
   ops:
@@ -155,6 +156,40 @@ def kindTag (e : String) : String :=
   if e.startsWith "E:c" then "e-conn" else if e.startsWith "E:s" then "e-stream"
   else if e.startsWith "E:" then "e-" ++ (e.drop 2).toString else "f-" ++ (e.take 1).toString
 
+def fieldsStr (fs : List Field) : String :=
+  if fs.isEmpty then "-" else "&".intercalate (fs.map fun f => hexB f.name ++ "=" ++ hexB f.value)
+
+def mresStr : MRes → String
+  | .frame f => frameStr f
+  | .mh fh pr fs t => "M:" ++ fhStr fh ++ ":" ++ prioStr pr ++ ":T" ++ b01 t ++ ":" ++ fieldsStr fs
+  | .err e => errStr e
+  | .merr .comp => "E:c9"
+  | .merr .uri => "E:uri"
+  | .merr .hls => "E:hls"
+  | .merr .unsupported => "UNSUPPORTED"
+  | .panic => "PANIC"
+
+/-- independent checks on a MetaHeadersFrame the implementation returned -/
+def judgeMeta (maxList maxUri : Nat) (e : String) : Option String :=
+  if !e.startsWith "M:" then none
+  else
+    match e.splitOn ":" with
+    | [_, _, _, _, _, _, fstr] =>
+      if fstr == "-" then none
+      else
+        let fs := (fstr.splitOn "&").filterMap fun kv =>
+          match kv.splitOn "=" with
+          | [a, b] => match unhex a, unhex b with | some x, some y => some (Field.mk x y) | _, _ => none
+          | _ => none
+        if fs.length != (fstr.splitOn "&").length then some "meta-unparsable"
+        else if (fs.map Field.size).foldl (· + ·) 0 > maxList then some "meta-list-size"
+        else if fs.any (fun f => f.name == strBytes ":path" && f.value.length > maxUri) then some "meta-uri-size"
+        else if fs.any (fun f => !validValue f.value || (!isPseudo f.name && !validName f.name)) then some "meta-invalid-field"
+        else if (fs.dropWhile (fun f => isPseudo f.name)).any (fun f => isPseudo f.name) then some "meta-pseudo-after-regular"
+        else if !pseudoOK fs then some "meta-pseudo-set"
+        else none
+    | _ => some "meta-unparsable"
+
 def run (op impl : String) : Ans :=
   match op.splitOn " " with
   | ["rd", mx, hx] =>
@@ -211,6 +246,25 @@ def run (op impl : String) : Ans :=
           (if sizes.contains 0 then ["empty-read"] else []) ++ (if sizes == [1] then ["bytewise"] else []) ++
           (if entries.length ≥ 2 then ["nt"] else []) }
     | _, _, _ => { model := "bad-op", verdict := "skip" }
+  | ["rm", ml, mu, mx, hx] =>
+    -- ReadFrame with ReadMetaHeaders set (MaxHeaderListSize ml >= 1, MaxHeaderUriSize mu >= 1)
+    match ml.toNat?, mu.toNat?, mx.toNat?, unhex hx with
+    | some maxList, some maxUri, some max, some buf =>
+      if maxList == 0 || maxUri == 0 then { model := "bad-op", verdict := "skip" } else
+      let rs := readAllM ⟨maxList, maxUri⟩ (buf.length + 1) ⟨newFramer max, []⟩ buf
+      let model := "|".intercalate (rs.map mresStr)
+      let entries := impl.splitOn "|"
+      let unsupported := rs.any fun r => match r with | .merr .unsupported => true | _ => false
+      let v :=
+        if impl.startsWith "PANIC" || impl == "HANG" then "FAIL:meta-panic"
+        else match entries.findSome? (judgeMeta maxList maxUri) with
+          | some c => "FAIL:" ++ c
+          | none => if unsupported then "skip" else "ok"
+      { model := model, verdict := v,
+        tags := ["rm"] ++ (entries.map fun e => if e.startsWith "M:" then "f-M" else kindTag e).eraseDups ++
+          (if unsupported then ["hpack-unsupported"] else []) ++
+          (if entries.any (·.startsWith "M:") then ["nt"] else []) }
+    | _, _, _, _ => { model := "bad-op", verdict := "skip" }
   | ["rc", mx, hx] =>
     -- ReadFrame called again after EVERY error (until an i/o error)
     match mx.toNat?, unhex hx with
